@@ -227,6 +227,17 @@ def replay_specs(mod, prop, specs_with_paths, known):
     return out
 
 
+def emit(line=''):
+    try:
+        sys.stdout.write(str(line) + '\n')
+        sys.stdout.flush()
+    except BrokenPipeError:
+        try:
+            sys.stdout = open(os.devnull, 'w')
+        except Exception:
+            pass
+
+
 def main(argv=None):
     ap = argparse.ArgumentParser()
     ap.add_argument('prop')
@@ -250,7 +261,7 @@ def main(argv=None):
         mod = _load(prop)
         known = load_known(prop)
     except BaseException:  # noqa
-        print('HARNESS-ERROR property=%s import failed\n%s' % (prop, traceback.format_exc()))
+        emit('HARNESS-ERROR property=%s import failed\n%s' % (prop, traceback.format_exc()))
         return 2
 
     # ---- single replay ---------------------------------------------------
@@ -261,15 +272,15 @@ def main(argv=None):
         try:
             res = replay_specs(mod, prop, [(a.replay, spec)], known)
         except BaseException:  # noqa
-            print('HARNESS-ERROR property=%s replay crashed\n%s' % (prop, traceback.format_exc()))
+            emit('HARNESS-ERROR property=%s replay crashed\n%s' % (prop, traceback.format_exc()))
             return 2
         _, fails, case = res[0]
         for fl in case.fails:
-            print('  clause=%s kind=%s %s' % (fl['clause'], fl['kind'], fl['detail']))
+            emit('  clause=%s kind=%s %s' % (fl['clause'], fl['kind'], fl['detail']))
         if fails:
-            print('VIOLATION property=%s replay=%s' % (prop, a.replay))
+            emit('VIOLATION property=%s replay=%s' % (prop, a.replay))
             return 1
-        print('replay passed: %s (%d clauses checked)' % (a.replay, sum(case.checked.values())))
+        emit('replay passed: %s (%d clauses checked)' % (a.replay, sum(case.checked.values())))
         return 0
 
     violations = []     # (bucket key, replay path, detail)
@@ -309,7 +320,7 @@ def main(argv=None):
                 violations.append(('%s|%s' % (fl['clause'], fl['kind']), path, fl['detail'], None))
         total.buckets = {}
     except BaseException:  # noqa
-        print('HARNESS-ERROR property=%s replay tier crashed\n%s' % (prop, traceback.format_exc()))
+        emit('HARNESS-ERROR property=%s replay tier crashed\n%s' % (prop, traceback.format_exc()))
         return 2
 
     # ---- generated tier --------------------------------------------------
@@ -335,7 +346,7 @@ def main(argv=None):
                 results += r2.get(timeout=max(1.0, limit - (time.time() - t0)))
         except mp.TimeoutError:
             pool.terminate()
-            print('HARNESS-ERROR property=%s inconclusive: wall-clock guard %.0fs hit' % (prop, limit))
+            emit('HARNESS-ERROR property=%s inconclusive: wall-clock guard %.0fs hit' % (prop, limit))
             return 2
 
     shard_of_bucket = {}
@@ -433,19 +444,19 @@ def main(argv=None):
             json.dump(jsonable(ev), f, indent=1)
 
     # ---- report -------------------------------------------------------------
-    print('%s tier=%s seed=%d evaluations=%d nontrivial=%d distinct_nontrivial=%d wall=%.1fs' % (
+    emit('%s tier=%s seed=%d evaluations=%d nontrivial=%d distinct_nontrivial=%d wall=%.1fs' % (
         prop, tier, seed, total.evaluations, total.nontrivial, len(total.struct_nontrivial), wall))
-    print('  classes: ' + ', '.join('%s=%d' % kv for kv in sorted(total.classes.items())))
-    print('  clauses: ' + ', '.join('%s=%d' % kv for kv in sorted(total.clauses.items())))
+    emit('  classes: ' + ', '.join('%s=%d' % kv for kv in sorted(total.classes.items())))
+    emit('  clauses: ' + ', '.join('%s=%d' % kv for kv in sorted(total.clauses.items())))
     if total.inconclusive:
-        print('  inconclusive: ' + ', '.join('%s=%d' % kv for kv in sorted(total.inconclusive.items())))
+        emit('  inconclusive: ' + ', '.join('%s=%d' % kv for kv in sorted(total.inconclusive.items())))
     if total.excluded_known:
-        print('  excluded_known: ' + ', '.join('%s=%d' % kv for kv in sorted(total.excluded_known.items())))
+        emit('  excluded_known: ' + ', '.join('%s=%d' % kv for kv in sorted(total.excluded_known.items())))
     for line in known_lines:
-        print(line)
+        emit(line)
     if harness_errors:
         for h in harness_errors:
-            print('HARNESS-ERROR property=%s %s' % (prop, h))
+            emit('HARNESS-ERROR property=%s %s' % (prop, h))
         return 2
     if violations:
         seen = set()
@@ -458,8 +469,8 @@ def main(argv=None):
                 path = os.path.join('evidence', name)
                 with open(os.path.join(HERE, path), 'w') as f:
                     json.dump(dict(property=prop, bucket=key, spec=wspec), f, indent=1)
-            print('  bucket %s: %s' % (key, detail))
-            print('VIOLATION property=%s replay=%s' % (prop, path))
+            emit('  bucket %s: %s' % (key, detail))
+            emit('VIOLATION property=%s replay=%s' % (prop, path))
         return 1
     return 0
 
@@ -468,7 +479,10 @@ if __name__ == '__main__':
     try:
         rc = main()
     except BaseException:  # noqa
-        print('HARNESS-ERROR runner crashed\n%s' % traceback.format_exc())
+        emit('HARNESS-ERROR runner crashed\n%s' % traceback.format_exc())
         rc = 2
-    sys.stdout.flush()
+    try:
+        sys.stdout.flush()
+    except Exception:
+        pass
     os._exit(rc)
